@@ -90,6 +90,13 @@ func genGroupCase(t *rapid.T, withID bool) groupCase {
 	}
 	d := hx.GenDerived(t, base, steps)
 	in := d.Input(t)
+	// now and then the frame has an earlier life that touched its data columns (numbered, grouped, de-duplicated, ordered,
+	// tested for null, overwritten afterwards): what it then holds is observed, and the keys tend to be the columns that life was about
+	var hist hx.History
+	if !filled && !wide && rapid.IntRange(0, 3).Draw(t, "history") == 0 {
+		d.QF, in, hist = hx.GenHistory(t, d.QF, in, true, "id")
+		d.Route = append(d.Route, hist.String())
+	}
 	var cands []string
 	for _, c := range in.Cols {
 		if c.Name != "id" {
@@ -101,6 +108,36 @@ func genGroupCase(t *rapid.T, withID bool) groupCase {
 		nk = len(cands)
 	}
 	perm := rapid.Permutation(cands).Draw(t, "keyperm")
+	if hist.Focus != "" {
+		front := []string{hist.Focus}
+		switch rapid.IntRange(0, 3).Draw(t, "histkeys") {
+		case 0:
+			front = nil
+		case 1:
+			if len(hist.Keys) > 0 {
+				front = hist.Keys
+			}
+		}
+		isFront := map[string]bool{}
+		var p2 []string
+		for _, k := range front {
+			if !isFront[k] && in.Find(k) >= 0 && k != "id" {
+				isFront[k] = true
+				p2 = append(p2, k)
+			}
+		}
+		if len(p2) > 0 && rapid.Bool().Draw(t, "histkeysonly") {
+			nk = len(p2)
+		} else if nk < len(p2) {
+			nk = len(p2)
+		}
+		for _, k := range perm {
+			if !isFront[k] {
+				p2 = append(p2, k)
+			}
+		}
+		perm = p2
+	}
 	if wide {
 		// all the nearly constant columns first, then some of the others
 		var rest []string
